@@ -2,6 +2,7 @@
    (Cache.v adds it): which schema, which float mode, which outcome. *)
 From Coq Require Import List ZArith Bool String Ascii.
 From OV.Model Require Import Json Schema.
+From OV.Gen Require Import ValidateRules.
 Import ListNotations.
 Local Open Scope string_scope.
 
@@ -16,8 +17,8 @@ Definition version_str (v : version) : string := match v with V16 => "1.6" | V20
 (* the three OCPP 1.6 messages validated with decimal.Decimal *)
 Definition decimal_msg (v : version) (mt : mtype) (action : string) : bool :=
   match v, mt with
-  | V16, MCall => String.eqb action "SetChargingProfile" || String.eqb action "RemoteStartTransaction"
-  | V16, MCallResult => String.eqb action "GetCompositeSchedule"
+  | V16, MCall => mem action decimal_calls16            (* lists regenerated from _validate_payload's condition *)
+  | V16, MCallResult => mem action decimal_results16
   | _, _ => false
   end.
 
